@@ -294,6 +294,70 @@ def drain(ch, n, out):
     out.append(got)
 
 
+def services_after_rekey(ctx, tc, ts, case, tag):
+    """what "the session continues" means beyond data on an existing channel: both ends still know who is
+    authenticated, a new channel can be opened and used, a global request is answered on its merits"""
+    for name, t in (("client", tc), ("server", ts)):
+        if not t.is_authenticated():
+            ctx.fail("authentication-lost-after-rekey:" + name, dict(case, after=tag), "is_authenticated() is False")
+        try:
+            user = t.get_username()
+        except Exception as e:
+            user = repr(e)
+        if user != "u":
+            ctx.fail("username-changed-after-rekey:" + name, dict(case, after=tag), "get_username() = %r" % (user,))
+    try:
+        ch2 = tc.open_session(timeout=30)
+        sch2 = ts.accept(30)
+        if sch2 is None:
+            raise InfraError("accept timed out")
+        ch2.settimeout(20)
+        sch2.settimeout(20)
+        ch2.sendall(b"new-channel")
+        got = b""
+        while len(got) < 11:
+            x = sch2.recv(64)
+            if not x:
+                break
+            got += x
+        if got != b"new-channel":
+            ctx.fail("new-channel-unusable-after-rekey", dict(case, after=tag), repr(got))
+        ch2.close()
+        sch2.close()
+    except InfraError:
+        raise
+    except Exception as e:
+        ctx.fail("new-channel-refused-after-rekey", dict(case, after=tag), repr(e))
+    try:
+        r = tc.global_request("ok-pv@verif", wait=True)
+    except Exception as e:
+        r = e
+    if r is None or isinstance(r, Exception):
+        ctx.fail("global-request-refused-after-rekey", dict(case, after=tag), "answer: %r" % (r,))
+
+
+def explicit_rekeys(ctx, rng):
+    """re-exchanges asked for by either side in turn; the services check after each one"""
+    tc, ts, taps = e2e_pair(None, None)
+    case = {"pattern": "explicit-renegotiation"}
+    try:
+        ch = tc.open_session(timeout=30)
+        sch = ts.accept(30)
+        services_after_rekey(ctx, tc, ts, case, "initial exchange")
+        for i, who in enumerate(rng.sample(["client", "server", "client", "server"], 4)[:3]):
+            (tc if who == "client" else ts).renegotiate_keys()
+            L.wait_until(lambda: all(t.local_kex_init is None and t.clear_to_send.is_set() and not t.in_kex
+                                     for t in (tc, ts)), 60, "the re-exchange to settle on both sides")
+            ch.sendall(b"still-here")
+            if sch.recv(64) != b"still-here":
+                ctx.fail("existing-channel-broken-after-rekey", case, "exchange %d by %s" % (i + 1, who))
+            services_after_rekey(ctx, tc, ts, case, "re-exchange %d started by the %s" % (i + 1, who))
+            ctx.dist("explicit-rekey:" + who)
+    finally:
+        tc.close()
+        ts.close()
+
+
 COMP_MODEL = {"none": "none", "zlib": "zlib", "zlib@openssh.com": "delayed"}
 
 
@@ -397,6 +461,8 @@ def traffic_case(ctx, pattern, rng, compression=None, comp_cases=None):
                 ctx.fail("threshold-crossed-without-rekey:" + pattern, case, "%d bytes sent, REKEY_BYTES=%d" % (n, rb))
             if rb < 10 ** 8 and n >= rb and nk < 1 and pattern == "receive-heavy":
                 ctx.fail("threshold-crossed-without-rekey:" + pattern, case, "%d bytes received, REKEY_BYTES=%d" % (n, rb))
+        if tc.is_active() and ts.is_active():
+            services_after_rekey(ctx, tc, ts, case, "%d threshold re-exchanges (%s)" % (nk, pattern))
         if comp_cases is not None:
             for name, t in (("client", tc), ("server", ts)):
                 comp_cases.append((COMP_MODEL[t.local_compression], list(t.pv_engines.ops),
@@ -574,6 +640,8 @@ def run(ctx):
             f = rp_.split(" ")
             if [int(f[0]), int(f[1])] != [io, ii]:
                 ctx.disagree("compressor installs per key switch", dict(case, request=rq), [int(f[0]), int(f[1])], [io, ii])
+    ctx.case(("explicit-rekeys",), True)
+    explicit_rekeys(ctx, rng)
     # a re-exchange we start ourselves must wait for an application packet that has already passed the send gate
     for role in ("server", "client"):
         o = L.parked_sender_vs_self_rekey(role)
